@@ -456,6 +456,63 @@ def run_sched(spec, res):
         pass
 
 
+class _Cancelled(BaseException):
+    pass
+
+
+def run_race(spec, res):
+    """Real threads: two pool-prefetch workers ask ONE cold cache for the same
+    example at the same time (the cache interspersed with itself, a slow
+    pipeline).  Whatever the cache does about the race, every consumer gets a
+    value the pipeline produced for that example - its own object, never a
+    placeholder - and an example whose pipeline raises (also a BaseException
+    that the prefetch is told to filter) is left out for both."""
+    import time
+    ld = import_lazy_dataset()
+    for n in (1, 2, 4):
+        for failing in (None, 0, n - 1):
+            for store in ('cache', 'diskcache'):
+                for rep in range(spec.get('race_reps', 2)):
+                    case = {'race_on_cold_cache': True, 'n': n, 'raises_for': failing,
+                            'store': store}
+                    res.case(('race', n, failing, store, rep), True)
+                    calls = collections.Counter()
+
+                    def fn(x, calls=calls, failing=failing):
+                        time.sleep(0.02)
+                        calls[x] += 1
+                        if x == failing:
+                            raise _Cancelled(x)
+                        return {'id': x, 'l': [x]}
+                    try:
+                        base = ld.new(list(range(n))).map(fn)
+                        c = base.cache() if store == 'cache' else base.diskcache()
+                        out = list(c.intersperse(c).prefetch(
+                            2, 2, 't', catch_filter_exception=_Cancelled))
+                    except BaseException as e:
+                        res.violation('access-raised', case, exc_sig(e),
+                                      sig={'access': 'race', 'harness': 'real-threads'})
+                        continue
+                    res.count('cold_cache_races_checked')
+                    want = [i for i in range(n) if i != failing for _ in (0, 1)]
+                    ok = [isinstance(v, dict) and v.get('id') == w and v.get('l') == [w]
+                          for v, w in zip(out, want)]
+                    if len(out) != len(want) or not all(ok):
+                        res.violation('invented' if any(v is None for v in out)
+                                      else 'wrong-example', case,
+                                      {'delivered': repr(out)[:300], 'want_ids': want},
+                                      sig={'access': 'race', 'harness': 'real-threads'})
+                        continue
+                    # what one consumer does to its example is not seen by the other
+                    for v in out[::2]:
+                        v['l'].append('mutated')
+                    if len({id(v) for v in out}) != len(out) or \
+                            any(v['l'] != [v['id']] for v in out[1::2]):
+                        res.violation('handed-out-value-was-mutated-in-cache', case,
+                                      {'delivered_after_mutating_every_other': repr(out)[:300]},
+                                      sig={'access': 'race', 'harness': 'real-threads'})
+
+
 def shards(tier, seed):
     lim = LIMITS[tier]
     out = [{'name': 'sched', 'what': 'sched',
@@ -467,12 +524,15 @@ def shards(tier, seed):
     for j in range(3):
         out.append({'name': f'rand{j}', 'what': 'rand', 'part': j, **lim})
     out.append({'name': 'eager', 'what': 'eager', **lim})
+    out.append({'name': 'race', 'what': 'race', 'race_reps': 2 if tier == 'quick' else 20})
     return out
 
 
 def run_shard(spec, res):
     if spec['what'] == 'sched':
         return run_sched(spec, res)
+    if spec['what'] == 'race':
+        return run_race(spec, res)
     ld = import_lazy_dataset()
     install_mem()
     rng = rng_for(spec['seed'], PROPERTY, spec['name'])
